@@ -109,6 +109,11 @@ type workerReport struct {
 	WallS        float64           `json:"wall_s"`
 	GoVersion    string            `json:"go_version"`
 	Replayed     *workerViolation  `json:"replayed,omitempty"`
+	// Resume, when non-zero, is the case number at which the driver should
+	// start a fresh process for this worker slot: this one stopped early
+	// because its memory grew past VERIF_MEM_LIMIT_MB (goroutines that the
+	// code under test leaves blocked keep their buffers for ever).
+	Resume uint64 `json:"resume,omitempty"`
 }
 
 type knownFinding struct {
@@ -300,7 +305,7 @@ func WorkerMain(t *testing.T, props map[string]*Prop) {
 	if path := os.Getenv("VERIF_TRACE_LOG"); path != "" {
 		// Determinism self-test: one line per evaluated case with everything
 		// that must be a pure function of the seed.
-		traceLog, _ = os.Create(path)
+		traceLog, _ = os.OpenFile(path, os.O_CREATE|os.O_WRONLY|os.O_APPEND, 0o644)
 		defer traceLog.Close()
 	}
 	account := func(o *Outcome, tape *Tape) {
@@ -362,9 +367,23 @@ func WorkerMain(t *testing.T, props map[string]*Prop) {
 			stop = true
 		}
 	}
-	for n := uint64(0); !stop; n++ {
+	startN := envU64("VERIF_START_N", 0)
+	memLimit := uint64(envInt("VERIF_MEM_LIMIT_MB", 2000)) << 20
+	for n := startN; !stop; n++ {
 		if time.Since(start) > budget || (maxCases > 0 && int(n) >= maxCases) {
 			break
+		}
+		if n > startN && (n-startN)%25 == 0 {
+			var ms runtime.MemStats
+			runtime.ReadMemStats(&ms)
+			if ms.HeapInuse+ms.StackInuse > memLimit {
+				debug.FreeOSMemory()
+				runtime.ReadMemStats(&ms)
+				if ms.HeapInuse+ms.StackInuse > memLimit {
+					rep.Resume = n
+					break
+				}
+			}
 		}
 		idx := n*uint64(workers) + uint64(worker)
 		caseSeed := Mix(seed, idx)
